@@ -69,6 +69,9 @@ def run(chk: common.Check, tier: str):
                 "further tokens, in left-recursive rules, plus random grammars with mk(LOCATIONS) actions x token sequences "
                 "up to length 3 and hand-picked longer inputs, under {quiet, verbose} x {cache on, off}; non-trivial = the "
                 "parse consumed a token and produced a location-carrying value; distinct by (grammar, input, configuration)")
+    rm.shipped_hypothesis(chk, "grammar_shape_ok", "C15_generated_parsers_give_actions_the_span_of_the_match",
+                           "forced items stand directly among the items of alternatives, no repetition of a cut, no underscore "
+                           "rule names (data/python.gram, whose actions use LOCATIONS throughout, is among them)")
     r = common.rng("c15")
     kn = gramgen.Knobs(terminals=("NAME", "NUMBER", "'+'", "'='", "NEWLINE"), left_rec=False,
                        action_pool=("mk(LOCATIONS)", "foo(mk(LOCATIONS), x)", "[mk(LOCATIONS)]"))
